@@ -461,3 +461,54 @@ Definition query_t_eqb (a b : query_t) : bool :=
 Definition pair_zz_eqb (a b : Z * Z) : bool := (fst a =? fst b) && (snd a =? snd b).
 Definition maps_eqb (a b : option (list (list (Z * Z)))) : bool :=
   option_eqb (list_eqb (list_eqb pair_zz_eqb)) a b.
+
+(* ---- 4d. well-formedness of the reference-side inputs (hypotheses of the search equivalence) ---- *)
+(* molecule: every atom inside the representable range, neighbour dicts have distinct keys that are atoms of the molecule,
+   bond orders 1,2,3,4,8 *)
+Definition wf_ratom (n : Z) (a : ratom) : Prop :=
+  atom_ok (ra_atom a) = true /\ NoDup (map fst (ra_nbrs a)) /\
+  Forall (fun e => 0 <= fst e < n /\ bond_ok (snd e) = true) (ra_nbrs a).
+Definition wf_mol (rm : list ratom) : Prop := Forall (wf_ratom (zlen rm)) rm.
+
+(* linear query as _compile_query builds it: every entry but the first has a bond to its back atom, the first has none; ring-closure partners
+   are distinct earlier entries *)
+Definition wf_rqent (i : nat) (e : rqent) : Prop :=
+  query_ok (rq_atom e) = true /\
+  (i = O -> rq_bond e = None) /\
+  (i <> O -> exists sb, rq_bond e = Some sb /\ qbond_ok sb = true) /\
+  NoDup (map fst (rq_clos e)) /\
+  Forall (fun mb => 0 <= fst mb < Z.of_nat i /\ qbond_ok (snd mb) = true) (rq_clos e).
+Definition wf_query (rq : list rqent) : Prop :=
+  forall i, (i < List.length rq)%nat -> wf_rqent i (rq_ent rq (Z.of_nat i)).
+
+Definition in_range_pair (rq : list rqent) (rm : list ratom) : Prop :=
+  forall e a, In e rq -> In a rm -> elem_hyp (rq_atom e) (la_num (ra_atom a)).
+
+(* boolean versions (evaluated by the correspondence runner on the real inputs: which of them satisfy the hypotheses) *)
+Definition wf_ratomb (n : Z) (a : ratom) : bool :=
+  atom_ok (ra_atom a) && nodup_z (map fst (ra_nbrs a)) &&
+  forallb (fun e => (0 <=? fst e) && (fst e <? n) && bond_ok (snd e)) (ra_nbrs a).
+Definition wf_molb (rm : list ratom) : bool := forallb (wf_ratomb (zlen rm)) rm.
+Definition wf_rqentb (i : nat) (e : rqent) : bool :=
+  query_ok (rq_atom e) &&
+  (match i, rq_bond e with
+   | O, None => true
+   | S _, Some sb => qbond_ok sb
+   | _, _ => false
+   end) &&
+  nodup_z (map fst (rq_clos e)) &&
+  forallb (fun mb => (0 <=? fst mb) && (fst mb <? Z.of_nat i) && qbond_ok (snd mb)) (rq_clos e).
+Definition wf_queryb (rq : list rqent) : bool :=
+  forallb (fun i => wf_rqentb i (rq_ent rq (Z.of_nat i))) (seq 0 (List.length rq)).
+Definition elem_hypb (q : qatom) (an : Z) : bool :=
+  in_range 1 116 an &&
+  match q with
+  | QElem n _ _ => in_range 1 116 n
+  | QAny _ => true
+  | QList nums _ => all_in 1 116 nums
+  | QMetal _ _ => negb (an =? 86)
+  end.
+Definition in_range_pairb (rq : list rqent) (rm : list ratom) : bool :=
+  forallb (fun e => forallb (fun a => elem_hypb (rq_atom e) (la_num (ra_atom a))) rm) rq.
+Definition hyps_ok (rq : list rqent) (rm : list ratom) : bool :=
+  nonempty rq && wf_queryb rq && wf_molb rm && in_range_pairb rq rm.
